@@ -215,7 +215,11 @@ def execute(ctx, spec):
         if 0 in shape[1:]:
             out.cls('zero-extent-in-non-first-axis')
         # (an explicit chunk length: the default one is computed by dividing by the row size)
-        a = darr.asarray(path, ref, accessmode=spec['mode'], **({'chunklen': 2} if 0 in shape[1:] else {}))
+        try:
+            a = darr.asarray(path, ref, accessmode=spec['mode'], **({'chunklen': 2} if 0 in shape[1:] else {}))
+        except Exception as e:
+            out.viol('create-raised', f'asarray:{type(e).__name__}', f'asarray of shape {shape} in mode {spec["mode"]}: {type(e).__name__}: {e}')
+            return out
         datafile = os.path.join(path, 'arrayvalues.bin')
         results = []      # (returned array, copy taken at return time)
 
